@@ -18,19 +18,28 @@
 (* special-key-repeated      a key that is not an identifier (data-x,       *)
 (*      class) written twice: the later value silently overwrites the       *)
 (*      earlier one instead of TypeError.                                   *)
+(* keyword-value-named-like-flag   `key=required` on a tag whose            *)
+(*      allowed_flags contain `required`: the whole keyword argument is     *)
+(*      taken for the flag and dropped (the flag is set instead).           *)
 (***************************************************************************)
 EXTENDS ArgBinding
 
 D1 == "posonly-default-omitted"
 D2 == "posonly-name-as-keyword"
 D3 == "special-key-repeated"
-DevSets == << {D1}, {D2}, {D3}, {D1, D3}, {D2, D3}, {D1, D2}, {D1, D2, D3} >>
-DevName(S) ==
-  CASE S = {D1} -> D1 [] S = {D2} -> D2 [] S = {D3} -> D3
-    [] S = {D1, D3} -> D1 \o "+" \o D3
-    [] S = {D2, D3} -> D2 \o "+" \o D3
-    [] S = {D1, D2} -> D1 \o "+" \o D2
-    [] OTHER -> D1 \o "+" \o D2 \o "+" \o D3
+D4 == "keyword-value-named-like-flag"
+DevOrder == <<D1, D2, D3, D4>>
+\* smaller sets first: a case is reported under the smallest set that predicts what was observed
+DevSets == << {D1}, {D2}, {D3}, {D4},
+              {D1, D3}, {D2, D3}, {D1, D2}, {D1, D4}, {D2, D4}, {D3, D4},
+              {D1, D2, D3}, {D1, D2, D4}, {D1, D3, D4}, {D2, D3, D4}, {D1, D2, D3, D4} >>
+RECURSIVE JoinNames(_, _)
+JoinNames(S, i) ==
+  IF i > Len(DevOrder) THEN ""
+  ELSE LET rest == JoinNames(S, i + 1) IN
+       IF DevOrder[i] \notin S THEN rest
+       ELSE IF rest = "" THEN DevOrder[i] ELSE DevOrder[i] \o "+" \o rest
+DevName(S) == JoinNames(S, 1)
 
 DropRepeatedSpecial(flat) ==
   SelectSeq(flat, LAMBDA e : e.k \notin SpecialKeys
@@ -38,7 +47,8 @@ DropRepeatedSpecial(flat) ==
 
 \* what the code answers when exactly the deviations in S are present
 ImplOutcome(s, flat0, S) ==
-  LET flat   == IF D3 \in S THEN DropRepeatedSpecial(flat0) ELSE flat0
+  LET flat1  == IF D4 \in S THEN SelectSeq(flat0, LAMBDA e : ~e.fv) ELSE flat0
+      flat   == IF D3 \in S THEN DropRepeatedSpecial(flat1) ELSE flat1
       base   == BindDecl(s, flat)
       npos   == Len(SelectSeq(flat, LAMBDA e : e.k = ""))
       keys   == {flat[j].k : j \in DOMAIN flat} \ {""}
@@ -54,24 +64,33 @@ ImplOutcome(s, flat0, S) ==
                 ELSE TypeErr
       ELSE base
 
-MayDeviate(s, flat) ==
-  \/ \E i \in DOMAIN s : s[i].k = "po"
-  \/ \E i, j \in DOMAIN flat : i < j /\ flat[i].k = flat[j].k /\ flat[i].k \in SpecialKeys
+\* deviations whose shape is present in the case at all (cheap over-approximation)
+Applicable(s, flat) ==
+  LET npos == Len(SelectSeq(flat, LAMBDA e : e.k = ""))
+      keys == {flat[j].k : j \in DOMAIN flat} \ {""}
+  IN  (IF \E i \in DOMAIN s : s[i].k = "po" /\ s[i].d /\ i > npos THEN {D1} ELSE {})
+      \cup (IF \E i \in DOMAIN s : s[i].k = "po" /\ i <= npos /\ Names[i] \in keys THEN {D2} ELSE {})
+      \cup (IF \E i, j \in DOMAIN flat : i < j /\ flat[i].k = flat[j].k /\ flat[i].k \in SpecialKeys
+            THEN {D3} ELSE {})
+      \cup (IF \E i \in DOMAIN flat : flat[i].fv THEN {D4} ELSE {})
 
 \* the deviation sets whose prediction is not admissible anyway, with the finding key
 \* (names of the deviations + the kind of wrong answer)
 Deviations(s, c, st) ==
-  LET flat == Flat(c) IN
-  IF ~MayDeviate(s, flat) THEN <<>>
+  LET flat == Flat(c)
+      app  == Applicable(s, flat) IN
+  IF app = {} THEN <<>>
   ELSE LET adm  == Admissible(s, c, st)
            want == Runtime(s, st)
            Kind(out) == IF out.o = "type" THEN "TypeError"
                         ELSE IF want.o = "ok" THEN "wrong-bindings" ELSE "accepted"
            Pred(n) == ImplOutcome(s, flat, DevSets[n])
+           cand == SelectSeq([n \in 1..Len(DevSets) |-> n], LAMBDA n : DevSets[n] \subseteq app)
            \* keep a set only if no earlier (smaller) one predicts the same answer
-           live == SelectSeq([n \in 1..Len(DevSets) |-> n],
+           live == SelectSeq(cand,
                              LAMBDA n : /\ ~\E a \in adm : SameOutcome(a, Pred(n))
-                                        /\ ~\E m \in 1..(n - 1) : SameOutcome(Pred(m), Pred(n)))
+                                        /\ ~\E m \in 1..(n - 1) :
+                                              DevSets[m] \subseteq app /\ SameOutcome(Pred(m), Pred(n)))
        IN  [j \in DOMAIN live |-> [key |-> DevName(DevSets[live[j]]) \o ":" \o Kind(Pred(live[j])),
                                    out |-> Pred(live[j])]]
 =============================================================================
